@@ -2,14 +2,14 @@ SPEC = dict(
     kind="rust",
     bins=rust("c23", (("regex", ("regex",)),)),
     design_ref="§3-C23",
-    technique="bounded-exhaustive enumeration of a jq program grammar x 18 inputs, differential between the two evaluators (S5), "
+    technique="bounded-exhaustive enumeration of a jq program grammar x 19 inputs, differential between the two evaluators (S5), "
               "disagreements attributed to the minimal sub-program before a signature is computed",
     rule="programs: B = ~1060 base terms (every nullary builtin, every builtin with argument templates, operators over ./literal pairs, paths, slices, "
          "construction, as-patterns, reduce/foreach, if, try/catch, label/break, optional, alternative, assignment forms, literal-fed edge cases); "
          "depth 1 = B; depth 2 = 17 unary contexts ([a], (a)?, try (a) catch ., [.[]|a], first(a), [limit(2;a)], map(a), {a:(a)}, (a)//1, if (a).., "
          "reduce (a).., path(a), (a)=1, (a)|=1, del(a), [(a),1], select(a)) around every judged term + pipes a|b (quick: primary x primary ~450^2; thorough: "
          "every judged term x every term that reads its input); thorough adds depth 3 over 82 core terms (a|b|c, ctx(a|b), ctx(a)|b, a|ctx(b), ctx(ctx(a))). "
-         "x 18 inputs (all scalar kinds, nested, duplicate key, edge numbers). A case is the (program, input) pair; distinct+non-trivial counts distinct agreed "
+         "x 19 inputs (the 18 of the design: all scalar kinds, nested, duplicate key, edge numbers; plus one object with keys out of order). A case is the (program, input) pair; distinct+non-trivial counts distinct agreed "
          "observations (outputs, terminal) other than 'no output, normal end'.",
     level_text="Every program of the bounded grammar is parsed once and run on every input through jq::eval::<_, JqSemantics> and "
                "jq::eval_generic::eval_with_cursor on the same cursor; outputs (as JSON values) and terminal (end / error message / break label / halt code) "
@@ -22,5 +22,5 @@ SPEC = dict(
                "pairs on which both evaluators panic with the same message, are counted in the evidence and not judged (C19/C30 cover crashes). Outputs "
                "that are equal as JSON values but differ in number spelling or key order are counted separately, not failed (none occurred).",
     assumptions=["value equality is JSON value equality (numbers numerically, object key order irrelevant)",
-                 "attribution re-serialises intermediate outputs, so a duplicate-key cause is tested on the minimal (sub-program, input) pair by collapsing duplicates"],
+                 "composite base terms (a|b written as one term) are split at their first top-level pipe for attribution", "attribution re-serialises intermediate outputs, so a duplicate-key cause is tested on the minimal (sub-program, input) pair by collapsing duplicates"],
 )
